@@ -119,6 +119,9 @@ func (pb *patternBuilder) getPatternItem() error {
 		}
 		switch {
 		case c == 'f':
+			if pb.i >= len(pb.ptn) || pb.ptn[pb.i] != '[' {
+				return errMissingBracketAfterF
+			}
 			s, err := pb.getCharClass()
 			if err == nil {
 				pb.emit(patternItem{s, ptnFrontier})
@@ -290,6 +293,8 @@ func getCharRange(c byte) (byteSet, error) {
 }
 
 var ErrInvalidPct = errors.New("invalid use of '%'")
+
+var errMissingBracketAfterF = errors.New("missing '[' after '%f' in pattern")
 
 func ErrInvalidCaptureIdx(i int) error {
 	return fmt.Errorf("invalid capture index %%%d", i)
